@@ -133,6 +133,24 @@ pub fn subject_main(job_path: &str) -> i32 {
                 // (2) nothing stays hidden by a compaction that is no longer running
                 let hidden = lsm_tree::verif_hooks::hidden_tables(d.inner());
                 rep.checks.push(Check { name: "hidden-set-empty-after-failed-op".into(), ok: hidden.is_empty(), detail: format!("{hidden:?}"), op: i });
+                if job.mode == "reopen-files" {
+                    // C20: after a failed op and a reopen no live file is gone and no partial file is left
+                    d.tree = None;
+                    match crate::corrupt::workload(&job.cfg, &dir, &[]) {
+                        Err(e) => rep.checks.push(Check { name: "files-reopen-after-failed-op".into(), ok: false, detail: format!("reopen failed: {e}"), op: i }),
+                        Ok(_) => {
+                            let left = crate::corrupt::leftover_files(&job.cfg, &dir);
+                            rep.checks.push(Check {
+                                name: "files-leftover-after-failed-op-and-reopen".into(),
+                                ok: left.is_empty(),
+                                detail: format!("after the failed {} and a reopen the directory still holds {left:?}, which the recovered version does not name", op.short()),
+                                op: i,
+                            });
+                        }
+                    }
+                    rep.finished = true;
+                    return;
+                }
                 if job.mode == "reopen" {
                     // (4) reopening right away yields the state from before or after the failed call
                     d.tree = None;
@@ -550,6 +568,11 @@ pub fn run_one_fault(
 }
 
 pub fn run_faults(tier: &str, threads: usize, max_wall_s: f64) -> FaultOutcome {
+    run_faults_for(tier, threads, max_wall_s, false)
+}
+
+/// `files_mode`: the C20 part - only the continuation "reopen, then list the directory", only for calls that change the file system.
+pub fn run_faults_for(tier: &str, threads: usize, max_wall_s: f64, files_mode: bool) -> FaultOutcome {
     let start = std::time::Instant::now();
     let root = crate::hx::scratch_root().join("fault");
     crate::hx::fresh_dir(&root);
@@ -626,6 +649,12 @@ pub fn run_faults(tier: &str, threads: usize, max_wall_s: f64) -> FaultOutcome {
             // continuations "reopen" and "skip" (go on without repeating the call): quick only for
             // calls that change the file system (a failed read leaves nothing behind on disk)
             let mutating = !matches!(p.syscall.as_str(), "read" | "pread64" | "getdents64" | "statx" | "newfstatat" | "fstat");
+            if files_mode {
+                if mutating {
+                    work.push(Work { h: h.clone(), live: live.clone(), reopen: reopen.clone(), p: p.clone(), errno: errnos[0], mode: "reopen-files" });
+                }
+                continue;
+            }
             for errno in errnos {
                 for mode in ["retry", "reopen", "skip"] {
                     if mode != "retry" && tier == "quick" && !mutating {
@@ -687,7 +716,7 @@ pub fn run_faults(tier: &str, threads: usize, max_wall_s: f64) -> FaultOutcome {
                 let push = |sig: String, msg: String| {
                     found.lock().unwrap().push(FaultReplay {
                         engine: "fault".into(),
-                        property: "C16".into(),
+                        property: if files_mode { "C20".into() } else { "C16".into() },
                         history_name: wk.h.name.clone(),
                         cfg: wk.h.cfg.clone(),
                         ops: wk.h.ops.clone(),
@@ -705,7 +734,9 @@ pub fn run_faults(tier: &str, threads: usize, max_wall_s: f64) -> FaultOutcome {
                     "history {} op {} ({}), {} #{} ({}) failing with {}, continuation {}",
                     wk.h.name, wk.p.op_index, wk.h.ops[wk.p.op_index].short(), wk.p.syscall, wk.p.ordinal, wk.p.what, wk.errno, wk.mode
                 );
+                let files_only = wk.mode == "reopen-files";
                 match res {
+                    Err(_) if files_only => {} // a dying subject is C16's finding
                     Err(e) => {
                         // no report: the subject died (abort) - the tree did not remain usable
                         push(format!("subject-died:{opname}:{}", wk.p.syscall), format!("{ctx}: {e}"));
@@ -717,7 +748,9 @@ pub fn run_faults(tier: &str, threads: usize, max_wall_s: f64) -> FaultOutcome {
                             continue;
                         }
                         if let Some(p) = &rep.panicked {
-                            push(format!("panic:{opname}:{}", wk.p.syscall), format!("{ctx}: panic: {p}"));
+                            if !files_only {
+                                push(format!("panic:{opname}:{}", wk.p.syscall), format!("{ctx}: panic: {p}"));
+                            }
                             continue;
                         }
                         if rep.errs.iter().any(|e| e.is_some()) {
@@ -725,11 +758,11 @@ pub fn run_faults(tier: &str, threads: usize, max_wall_s: f64) -> FaultOutcome {
                         } else {
                             swallowed.fetch_add(1, Ordering::Relaxed);
                         }
-                        for c in rep.checks.iter().filter(|c| !c.ok) {
+                        for c in rep.checks.iter().filter(|c| !c.ok && (!files_only || c.name.starts_with("files-"))) {
                             let on = wk.h.ops.get(c.op).map_or("end", |o| o.name());
                             push(format!("{}:{opname}:{}", c.name, wk.p.syscall), format!("{ctx}: check `{}` failed at op {} ({on}): {}", c.name, c.op, c.detail));
                         }
-                        if !rep.finished && rep.checks.iter().all(|c| c.ok) {
+                        if !files_only && !rep.finished && rep.checks.iter().all(|c| c.ok) {
                             push(format!("unfinished:{opname}:{}", wk.p.syscall), format!("{ctx}: the history did not run to its end: errs {:?}", rep.errs));
                         }
                     }
@@ -775,7 +808,7 @@ pub fn replay_fault(rp: &FaultReplay) -> Result<Vec<String>, String> {
             if let Some(p) = rep.panicked {
                 out.push(format!("panic: {p}"));
             }
-            for c in rep.checks.iter().filter(|c| !c.ok) {
+            for c in rep.checks.iter().filter(|c| !c.ok && (rp.mode != "reopen-files" || c.name.starts_with("files-"))) {
                 out.push(format!("{}: {}", c.name, c.detail));
             }
             if !rep.finished && out.is_empty() {
